@@ -147,7 +147,7 @@ def rand_qvar(rng):
     if r < 0.8:
         return rng.choice([0, 1, -1, 42, 10 ** 12])
     if r < 0.94:
-        return ["float", str(float(rng.choice([0.5, 1.0, -2.25, 1e20, 1e-7, 3.14])))]
+        return ["float", str(float(rng.choice([0.5, 1.0, -2.25, 1e20, 1e-7, 3.14, 0.0, -0.0, 1e16, 2.0])))]
     if r < 0.955:
         return rng.choice([["inf"], ["nan"]])
     if r < 0.97:
